@@ -57,5 +57,21 @@ def composed_examples(cls, count=8):
             hyp.explore(objects.strategy_for(ref), collect, Stats(), count, 20240917)
         except Exception:  # pylint: disable=broad-except
             pass
+    if ref == 'cryptoparser.tls.record:SslRecord':
+        out = out + [variant for data in out[:6] for variant in ssl2_three_byte_header_variants(data)]
     _CACHE[ref] = out
     return out
+
+
+def ssl2_three_byte_header_variants(record):
+    """The same SSL 2.0 record re-framed with the 3-byte header (MSB clear, 14-bit length, padding length octet)
+    and 0, 1 or 7 bytes of padding; compose() never emits this form, a peer may."""
+    if len(record) < 3 or not record[0] & 0x80:
+        return []
+    body = record[2:]
+    variants = []
+    for padding in (0, 1, 7):
+        length = len(body) + padding
+        if length < (1 << 14):
+            variants.append(bytes([(length >> 8) & 0x3f, length & 0xff, padding]) + body + b'\x00' * padding)
+    return variants
